@@ -85,6 +85,9 @@ func genCliCase(r *Rng, tier string) CliCase {
 		return c
 	case 5, 6:
 		o := genOpbCase(r, tier)
+		if r.Chance(1, 4) {
+			o = genOpbUnits(r, tier)
+		}
 		for i := range o.CostW { // negative objective coefficients: known finding of C03, kept out of this stream
 			if o.CostW[i] < 0 {
 				o = genOpbCase(r, tier)
@@ -107,6 +110,8 @@ func genCliCase(r *Rng, tier string) CliCase {
 		c := CliCase{Ext: "opb", Opb: &o, Text: o.Text, Flags: withV()}
 		if r.Chance(1, 4) {
 			c.Flags = withV("-cp")
+		} else if r.Chance(1, 3) {
+			c.Flags = withV("-count")
 		}
 		return c
 	case 7, 8:
@@ -382,6 +387,27 @@ func runCliCase(o *Oracle, d json.RawMessage, oc *Outcome) {
 	case "opb", "wcnf":
 		if code != 0 {
 			oc.Fail("spec", "exit-status", entry, "exit status %d on a well-formed file: %s", code, errOut)
+			return
+		}
+		if c.Ext == "opb" && isFlag("-count") {
+			hard := semAll(c.Opb.Constrs)
+			n := maxVarConstrs(c.Opb.Constrs)
+			for _, l := range c.Opb.CostLits {
+				if absInt(l) > n {
+					n = absInt(l)
+				}
+			}
+			want := o.Count(n, hard)
+			got := -1
+			for _, l := range other {
+				if k, err := strconv.Atoi(strings.TrimSpace(l)); err == nil {
+					got = k
+				}
+			}
+			oc.Nontrivial = len(c.Opb.Constrs) >= 2
+			if got != want {
+				oc.Fail("spec", "count", entry, "printed count %d, the file has %d models over %d variables (stdout %q)", got, want, n, out)
+			}
 			return
 		}
 		var n int
